@@ -78,6 +78,11 @@ func check(w *ir.World, allOrders bool) (*fail, int) {
 					f = &fail{fp, "reference evaluation", name + strings.Join(d, "\n"+name) + "\n(load order " + strings.Join(ord, ",") + ")"}
 					return
 				}
+				// the printed form marks every node as ReadOnly() answers for it
+				if p := ircmp.PrintMarks(yang.ToEntry(m)); p != "" {
+					f = &fail{"printed-read-only-differs", "Print marks as ReadOnly() says", name + p}
+					return
+				}
 			}
 		}
 	})
